@@ -445,6 +445,43 @@ def mix_files():
     return out
 
 
+def archive_fixture():
+    """An ar archive of three generated objects, each with a supplementary file of its own next to the archive: a
+    context of several modules (one per member) with several supplementary Dwarfs.  Returns the archive's path."""
+    from ..drv import BUILD
+    from .. import dwforest as DF
+    from ..dwgen import build_file, build_alt_file
+    from .c18 import ar_archive
+    d = os.path.join(BUILD, "run", "c12-arch")
+    arch = os.path.join(d, "members.a")
+    if os.path.exists(arch):
+        return arch
+    tmp = d + ".%d" % os.getpid()
+    os.makedirs(tmp, exist_ok=True)
+    members = []
+    for k in range(3):
+        rnd = random.Random(0xA2C + k)
+        while True:
+            f = DF.ForestGen(rnd, DF.FCfg(max_units=3, max_dies=15, alt=1.0, partial=0.5, bulk=0.0, line_tables=False)).forest()
+            if f.alt is not None:
+                break
+        f.alt_name = b"supp%d.dwz" % k
+        f.build_id = bytes([0x10 + k]) * 20
+        members.append(("m%d.o" % k, build_file(f)))
+        open(os.path.join(tmp, "supp%d.dwz" % k), "wb").write(build_alt_file(f))
+    open(os.path.join(tmp, "members.a"), "wb").write(ar_archive(members))
+    try:
+        os.rename(tmp, d)
+    except OSError:
+        import shutil
+        shutil.rmtree(tmp, ignore_errors=True)
+    return arch
+
+
+ARCHIVE_QUERIES = ['"%s" dwopen raw unit root offset', '"%s" dwopen [raw unit root label]', '"%s" dwopen raw entry (pos < 60) offset',
+                   '"%s" dwopen unit root offset', '"%s" dwopen raw abbrev offset', '"%s" dwopen (|D| [D raw unit offset] [D raw entry (pos < 30) label])']
+
+
 TWIN_QUERIES = ["entry ?TAG_enumerator @AT_const_value", "entry ?AT_const_value ?((@AT_type)* ?TAG_enumeration_type) @AT_const_value",
                 "entry ?TAG_base_type @AT_encoding", "entry ?AT_const_value ?((@AT_type)* ?TAG_base_type (@AT_encoding == DW_ATE_signed, @AT_encoding == DW_ATE_unsigned)) @AT_const_value",
                 "entry ?AT_name name", "entry ?TAG_enumerator attribute ?AT_const_value form", "entry ?AT_byte_stride @AT_byte_stride"]
@@ -623,6 +660,20 @@ def work_mix(task):
             steps = [(q(99), None, False, "")] + [(q(rnd.choice([100, 101, 150])), None, False, "") for _ in range(rnd.randint(1, 4))] \
                 + [(q(rnd.choice([99, 98, 97, 95])), None, False, ""), (rnd.choice(MIX_CORE[:20]), None, False, ""), (q(99), None, False, "")]
             ev.label("mixed-sequence:rejected-compilations-in-between")
+        if rnd.random() < 0.08:
+            # a file of several modules and several supplementary files, opened anew by every execution (`dwopen` in
+            # the query), other work in between: what the walk over its units yields does not depend on what the
+            # process did before
+            reuse = False
+            arch = archive_fixture()
+            steps = []
+            for _ in range(rnd.randint(4, 8)):
+                steps.append((rnd.choice(ARCHIVE_QUERIES) % arch, None, False, ""))
+                if rnd.random() < 0.6:
+                    p_ = rnd.choice(MIX_CORE)
+                    ins_ = [x for x in CORE_INPUTS if applicable(p_, x)]
+                    steps.append((p_, None, False, rnd.choice(ins_) if ins_ else ""))
+            ev.label("mixed-sequence:archive-with-supplementary-files")
         if reuse:
             # the same few queries again and again, on alternating inputs
             few = rnd.sample(steps, min(len(steps), 2))
@@ -662,6 +713,33 @@ def work_mix(task):
     return ev
 
 
+def work_plain_repeat(_):
+    """The same, on the build without sanitizers (whose allocator hands freed memory out again at once, unlike
+    ASan's): one process opens a file eight times in a row and walks it; each walk must print what a process that
+    does it once prints.  Anything ordered by the addresses of heap objects shows here."""
+    import subprocess
+    from ..drv import BUILD
+    ev = Evidence()
+    plain = os.path.join(BUILD, "bin", "dwgrep-plain")
+    arch = archive_fixture()
+    files = [arch, "/repo/tests/a1.out", "/repo/tests/dwz-partial2-1", "/repo/tests/twocus"]
+    bodies = ["[raw unit root offset]", "[raw entry (pos < 80) offset]", "[unit root offset]", "[raw abbrev offset]", "[symbol (pos < 20) name]"]
+    for f in files:
+        for b in bodies:
+            one = subprocess.run([plain, "-e", '"%s" dwopen %s' % (f, b)], stdout=subprocess.PIPE, stderr=subprocess.PIPE, timeout=120)
+            many = subprocess.run([plain, "-h", "--a", "(1, 2, 3, 4, 5, 6, 7, 8)", "-e", '(|N| "%s" dwopen %s)' % (f, b)], stdout=subprocess.PIPE, stderr=subprocess.PIPE, timeout=300)
+            ev.case(key=("plain-repeat", f, b), nontrivial=True)
+            ev.label("plain-repeat")
+            first = [l for l in one.stdout.split(b"\n") if l.startswith(b"[")]
+            each = [l for l in many.stdout.split(b"\n") if l.startswith(b"[")]
+            if one.returncode not in (0, 1) or many.returncode != one.returncode or (first and (len(each) != 8 or any(l != first[0] for l in each))):
+                k = next((k for k, l in enumerate(each) if not first or l != first[0]), -1)
+                ev.violations.append({"property": PID, "kind": "plain-repeat", "query": '(|N| "%s" dwopen %s)' % (f, b), "signature": "C12:plain-repeat:%s:%s" % (os.path.basename(f), b),
+                                      "reason": "opened and walked eight times in one process (build without sanitizers): execution #%d prints %r, a process that does it once prints %r (exit %d vs %d)"
+                                      % (k + 1, (each[k][:200] if 0 <= k < len(each) else None), (first[0][:200] if first else None), many.returncode, one.returncode)})
+    return ev
+
+
 def main(tier, seed):
     t0 = time.time()
     maxlen = 5 if tier == "quick" else 7
@@ -675,7 +753,9 @@ def main(tier, seed):
     per = max(10, n // 48)
     mix_files()        # compile the fixture once, before the workers fork
     twin_files()
+    archive_fixture()
     ev.merge(run_pool(work_mix, [(seed, s_, min(per, n - s_)) for s_ in range(0, n, per)]))
+    ev.merge(work_plain_repeat(None))
     ev.extra["mixed_sequences"] = n
     ev.extra["programs"] = len(pis)
     ev.extra["interleaving_length_bound"] = maxlen
@@ -687,15 +767,23 @@ def main(tier, seed):
                           "random histories": ev.labels.get("random-history", 0) > 100,
                           "mixed sequences": ev.labels.get("mixed-sequence", 0) > 100,
                           "mixed sequences with one compiled query executed on several inputs": ev.labels.get("mixed-sequence:one-compiled-query-many-inputs", 0) > 100,
+                          "repeated opens on the build without sanitizers": ev.labels.get("plain-repeat", 0) >= 15,
+                          "mixed sequences that open an archive with supplementary files again and again": ev.labels.get("mixed-sequence:archive-with-supplementary-files", 0) > 40,
                           "mixed sequences with rejected compilations in between": ev.labels.get("mixed-sequence:rejected-compilations-in-between", 0) > 50,
                           "mixed sequences over twin files (same offsets, different meaning)": ev.labels.get("mixed-sequence:twin-files", 0) > 100})
 
 
 def replay(path):
     rec = json.load(open(path))
+    if rec.get("kind") == "plain-repeat":
+        ev = work_plain_repeat(None)
+        for v in ev.violations:
+            print(v["reason"])
+        return 1 if ev.violations else 0
     if rec.get("kind") == "mix":
         mix_files()
         twin_files()
+        archive_fixture()
         bad = run_mix([tuple(x) for x in rec["steps"]], {}, bool(rec.get("reuse_compiled")))
         print(bad)
         return 1 if bad else 0
